@@ -8,7 +8,7 @@
 set -u
 SRC="$1"; PROP="$2"; NAME="$3"
 WT=/tmp/confirm-$NAME
-export CARGO_NET_OFFLINE=true CARGO_TARGET_DIR=/tmp/seed-target
+export CARGO_NET_OFFLINE=true CARGO_TARGET_DIR="${SEED_TARGET:-/tmp/seed-target}"
 cd /verif
 git -C /repo worktree remove --force "$WT" 2>/dev/null
 git -C /repo worktree add --detach "$WT" HEAD >/dev/null 2>&1 || { echo "worktree failed"; exit 2; }
